@@ -56,6 +56,7 @@ type catchAnalysis struct {
 	viaValue        map[ssa.Instruction]string // dynamic calls that can dispatch into a node method
 	everSetMemo     map[*types.Var]bool
 	flags           []*types.Var
+	callbackSets    map[*types.Var]bool // flags a module-defined test callback (a wrapper stored into Test.Func) sets on the context it is given
 	memo            map[*ssa.Function]map[int]map[*types.Var]bool // fn -> param idx -> flags dirty at exit (given clean entry)
 	busy            map[*ssa.Function]bool
 	summReady       bool
@@ -91,6 +92,65 @@ func (P *Prog) newCatchAnalysis() *catchAnalysis {
 		if f != nil {
 			ca.flags = append(ca.flags, f)
 		}
+	}
+	// every other boolean field of the node context is a per-node flag of the same kind (a `Failed`, `Aborted` or
+	// `Bailed` added next to Exit): held to the same confinement - false at every dispatch into a child - as soon as
+	// anything sets it (everSet); a flag nothing sets is inert
+	if st, ok := R.SchemaCtx.Underlying().(*types.Struct); ok {
+		for i := 0; i < st.NumFields(); i++ {
+			f := st.Field(i)
+			b, isB := f.Type().Underlying().(*types.Basic)
+			if !isB || b.Kind() != types.Bool || f.Embedded() {
+				continue
+			}
+			known := false
+			for _, k := range ca.flags {
+				if sameField(k, f) {
+					known = true
+				}
+			}
+			if !known {
+				ca.flags = append(ca.flags, f)
+			}
+		}
+	}
+	// what a test callback written in the module can do to the context it receives besides AddIssue: the wrappers
+	// that turn a bool predicate into a TFunc take the context as the Ctx interface, assert it to the node context
+	// and may set a flag on it (`c.Aborted = true` after a failing fatal test)
+	ca.callbackSets = map[*types.Var]bool{}
+	for _, fn := range P.Funcs {
+		var ctxPs []ssa.Value
+		for _, prm := range fn.Params {
+			if it, ok := prm.Type().Underlying().(*types.Interface); ok && R.Ctx != nil && types.Identical(it, R.Ctx) {
+				ctxPs = append(ctxPs, prm)
+			}
+		}
+		if len(ctxPs) == 0 || !inModule(funcPkgPath(fn)) {
+			continue
+		}
+		eachInstr(fn, func(_ *ssa.BasicBlock, _ int, in ssa.Instruction) {
+			st, ok := in.(*ssa.Store)
+			if !ok {
+				return
+			}
+			base, f := fieldVar(st.Addr)
+			if f == nil {
+				return
+			}
+			for _, fl := range ca.flags {
+				if !sameField(fl, f) {
+					continue
+				}
+				if b, isB := constBool(st.Val); isB && !b {
+					continue
+				}
+				for _, cp := range ctxPs {
+					if cvi(base) == cp {
+						ca.callbackSets[fl] = true
+					}
+				}
+			}
+		})
 	}
 	ca.addIssue = P.fn("(*zog/internals.SchemaCtx).AddIssue")
 	// Is every store to Exit in AddIssue — or in a helper it calls, such as `c.swallow(e)` — control-dependent on
@@ -762,6 +822,9 @@ func (ca *catchAnalysis) run(fn *ssa.Function, init flagState) ([]dispatchSite, 
 						case ci.dynamic:
 							// a callback receiving the context may call ctx.AddIssue
 							ca.applyAddIssue(cur)
+							for fl := range ca.callbackSets {
+								cur[fl] = true
+							}
 						}
 					}
 					for _, ce := range closureExits {
